@@ -251,10 +251,8 @@ def senderProcess (O : Query → m Bytes) (sid : Bytes) (rc : List Nat) (decKeys
     check values `t` of the block's K rows under the guess `guess i` of the sender's punctured index δ_i:
         t[i*K+b] = check(v[i*K+b]) ⊕ mask(bit b of guess i) · check(dev i),      x = check(c)   (χ = H(u) re-derived).
     The sender's row check then reads  mask(δ_ib)·check(dev i) = mask(guess_ib)·check(dev i). -/
-def advReceiver (O : Query → m Bytes) (sid : Bytes) (encKeys : List (List Bytes)) (choices : Bytes)
-    (tape : Tape) (dev guess : Nat → Nat) : m Round1Output := do
-  let (c, _) := extChoices choices tape
-  let rs ← recvExpand O sid encKeys
+def advAfterExpand (O : Query → m Bytes) (sid : Bytes) (rs : List (List Nat)) (c : Nat) (dev guess : Nat → Nat) :
+    m Round1Output := do
   let u := (List.range LAMBDA_C_DIV_SOFT_SPOKEN_K).map fun i => recvU (at2 rs i) (c ^^^ dev i)
   let v := recvVRows rs
   let chi ← chiAll O sid u
@@ -263,6 +261,12 @@ def advReceiver (O : Query → m Bytes) (sid : Bytes) (encKeys : List (List Byte
     checkRow chi (v.getD k 0) ^^^
       mask ((guess (k / SOFT_SPOKEN_K)).testBit (k % SOFT_SPOKEN_K)) (checkRow chi (dev (k / SOFT_SPOKEN_K)))
   pure { u, x, t }
+
+def advReceiver (O : Query → m Bytes) (sid : Bytes) (encKeys : List (List Bytes)) (choices : Bytes)
+    (tape : Tape) (dev guess : Nat → Nat) : m Round1Output := do
+  let (c, _) := extChoices choices tape
+  let rs ← recvExpand O sid encKeys
+  advAfterExpand O sid rs c dev guess
 
 /-- association list `(block, value)` → total function (first match, default 0) -/
 def lookupD (l : List (Nat × Nat)) (i : Nat) : Nat :=
@@ -277,6 +281,20 @@ def flipBit (bs : Bytes) (pos : Nat) : Bytes :=
 /-- tamper: flip one bit of the serialized message -/
 def tamperBit (msg : Round1Output) (pos : Nat) : Round1Output :=
   Round1Output.parse (flipBit msg.serialize pos)
+
+/-- the same flip computed on the parsed message (used by the batched verdict op of the driver; agrees with
+    `tamperBit` on well-formed messages, and the harness flips the real bytes independently) -/
+def tamperBitFast (msg : Round1Output) (pos : Nat) : Round1Output :=
+  let nu := 8 * (LAMBDA_C_DIV_SOFT_SPOKEN_K * L_PRIME_BYTES)
+  if pos < nu then
+    let i := pos / (8 * L_PRIME_BYTES)
+    { msg with u := msg.u.set i (msg.u.getD i 0 ^^^ (1 <<< (pos % (8 * L_PRIME_BYTES)))) }
+  else if pos < nu + 8 * S_BYTES then
+    { msg with x := msg.x ^^^ (1 <<< (pos - nu)) }
+  else
+    let q := pos - nu - 8 * S_BYTES
+    let i := q / (8 * S_BYTES)
+    { msg with t := msg.t.set i (msg.t.getD i 0 ^^^ (1 <<< (q % (8 * S_BYTES)))) }
 
 def swapAt (l : List Nat) (i j : Nat) : List Nat :=
   (l.set i (l.getD j 0)).set j (l.getD i 0)
